@@ -244,7 +244,9 @@ def _gm(R, cfg):
             R.twice(f'gm:{cfg}.log_probability_density({qname})', gm.log_probability_density, (Q,), owned=owned)
         R.twice(f'gm:{cfg}.cumulative_distribution(DataFrame)', gm.cumulative_distribution, (q.iloc[:2].copy(),),
                 compare=False)
-        for kname, cond in (('dict', {cols[1]: float(df[cols[1]].iloc[3])}),
+        for kname, cond in (('dict+unknown-key', {cols[1]: float(df[cols[1]].iloc[3]), 'not_a_column': 1.0}),
+                            ('Series+unknown-key', pd.Series({cols[0]: float(df[cols[0]].iloc[2]), 'not_a_column': 2.0})),
+                            ('dict', {cols[1]: float(df[cols[1]].iloc[3])}),
                             ('dict2', {cols[2]: float(df[cols[2]].iloc[3]), cols[0]: float(df[cols[0]].iloc[1])}),
                             ('Series', pd.Series({cols[0]: float(df[cols[0]].iloc[2])}))):
             R.twice(f'gm:{cfg}.sample(conditions={kname})', gm.sample, (3,), {'conditions': cond}, owned=owned,
@@ -252,6 +254,12 @@ def _gm(R, cfg):
         R.twice(f'gm:{cfg}.sample', gm.sample, (3,), reseed=lambda: gm.set_random_state(5), owned=owned)
         d = gm.to_dict()
         R.twice(f'gm:{cfg}.from_dict', GaussianMultivariate.from_dict, (d,))
+    # an integer-typed / mixed-dtype training frame must come back untouched (dtypes are part of the snapshot)
+    idf = pd.DataFrame({'i64': (np.arange(40) * 7) % 11, 'i16': ((np.arange(40) * 3) % 5).astype(np.int16),
+                        'f': np.linspace(0.0, 1.0, 40) ** 2})
+    gmi = GaussianMultivariate() if dist is None else GaussianMultivariate(distribution=tables.make_config(
+        cfg if cfg != 'boom-dict' else 'gaussian-class', list(idf.columns)))
+    R.twice(f'gm:{cfg}.fit(int-typed DataFrame)', gmi.fit, (idf,), compare=False)
     # a second model built from the same (caller-owned) distribution object must behave like the first
     if dist is not None:
         a = GaussianMultivariate(distribution=dist)
